@@ -12,7 +12,7 @@ import (
 func init() {
 	register(&Rule{
 		ID:    "C03.gate",
-		Props: []string{"C03", "C08", "C17"},
+		Props: []string{"C03", "C08", "C17", "C04", "C05", "C06", "C07"},
 		Doc:   "validation gates: in every function with a ...NoValidate parameter, (1) the value whose Validate() is called is the value that is returned, (2) every success return of that value is unreachable from its definition once the 'caller passed NoValidate' edges and the 'Validate returned nil' edges are removed (must-pass-through), (3) the Validate error is returned; gate functions without their own Validate call forward their nv to every gate they call; every other caller of a gate (Scan, UnmarshalJSON, Feature decoding, …) passes no NoValidate",
 		Floor: 13,
 		Run:   runC03Gate,
